@@ -1,0 +1,14 @@
+// Copyright The gittuf Authors
+// SPDX-License-Identifier: Apache-2.0
+
+//go:build verif
+
+// gvc contracts (comment-only, read under the "verif" build tag).
+
+package ssh
+
+//@ func NewVerifierFromKey -> (v, err)
+//@   trusted
+//@   pure
+//@   ensures err == nil ==> v != nil && vKeyID(toIfc(v)) == key.KeyID
+//@   ensures err != nil ==> v == nil
